@@ -5,6 +5,7 @@ use crate::core::Check;
 pub mod delta;
 pub mod history;
 pub mod jsondelta;
+pub mod server;
 pub mod validity;
 
 pub fn all() -> Vec<&'static Check> {
@@ -13,6 +14,9 @@ pub fn all() -> Vec<&'static Check> {
         &delta::C12,
         &history::C13,
         &history::C14,
+        &server::C15,
+        &server::C16,
+        &server::C17,
         &jsondelta::C18,
         &validity::C20,
     ]
